@@ -582,7 +582,10 @@ class CatalogMachine(Machine):
                          for x in a.extras[n]))]
             if not cols:
                 cols = None
-        return {'op': 'table', 'actor': k, 'columns': cols}
+        # the caller goes on working with its table (sorts it, overwrites a
+        # column): the catalog it came from is not affected
+        return {'op': 'table', 'actor': k, 'columns': cols,
+                'edit': rng.chance(0.4)}
 
     def _scalar_props(self, st):
         if st.scalar_props is None:
@@ -1138,6 +1141,18 @@ class CatalogMachine(Machine):
             if d:
                 raise Violation('commute', 'to_table', f'column {c}: {d}')
         st.stats.probe('table_checked')
+        if op.get('edit') and len(out) >= 1:
+            call(out.reverse)
+            if len(out) >= 2:
+                call(out.sort, names[0], reverse=True)
+            for c in names:
+                col = out[c]
+                if hasattr(col, 'frame'):          # SkyCoord column
+                    continue
+                if getattr(getattr(col, 'dtype', None), 'kind', '') in 'iuf':
+                    call(lambda: col.__setitem__(
+                        Ellipsis, 7 * (getattr(col, 'unit', None) or 1)))
+            st.stats.probe('table_edited_in_place')
 
     def finish(self, st):
         # closing sweep: a handful of properties on every member
